@@ -51,6 +51,7 @@ REQUIRED = [
     "late_client_served",
     "on_disconnection_rule_checked",
     "udp_fresh_generator_checked",
+    "udp_burst_behind_failing_datagram",
 ]
 EXHAUSTIVE = {"quick": True, "thorough": False}
 WATCHDOG = {"quick": 1200, "thorough": 7200}
@@ -445,6 +446,7 @@ class DgramHandler(AsyncDatagramRequestHandler):
         self.faulty, self.exc, self.pos, self.log = faulty_ports, exc, position, log
         self.gens: dict[int, int] = {}
         self.raised: set = set()
+        self.linger = 0
 
     async def handle(self, client):
         from easynetwork.servers.handlers import INETClientAttribute
@@ -461,7 +463,14 @@ class DgramHandler(AsyncDatagramRequestHandler):
             self.log.append(("raise", where, port))
             raise make_exc(self.exc, current)
 
+        async def linger():
+            # burst mode: the failing handler is suspended on bare yields (neither a datagram nor a timer) for a few loop
+            # iterations while more datagrams of its client are read, one per iteration, and queued behind it
+            for _ in range(self.linger):
+                await asyncio.sleep(0)
+
         if faulty and self.pos == "handle_before_yield":
+            await linger()
             boom("handle_before_yield")
         n = 0
         while True:
@@ -469,19 +478,23 @@ class DgramHandler(AsyncDatagramRequestHandler):
                 req = yield (0.5 if (faulty and self.pos == "handle_in_timeout") else None)
             except DatagramProtocolParseError as exc:
                 if faulty and self.pos == "handle_in_parse_error":
+                    await linger()
                     boom("handle_in_parse_error", exc)
                 continue
             except TimeoutError:
                 if faulty and self.pos == "handle_in_timeout":
+                    await linger()
                     boom("handle_in_timeout")
                 continue
             n += 1
             await client.send_packet(f"{req}|g{gid}")
             if faulty and self.pos == f"handle_after_{n}":
+                await linger()
                 boom(f"handle_after_{n}")
 
 
-def udp_scenario(exc: str, position: str) -> dict:
+def udp_scenario(exc: str, position: str, burst: int = 0) -> dict:
+    """burst: number of extra datagrams the failing client sends back-to-back right behind the one that triggers the failure"""
     res: dict[str, Any] = {"problems": [], "triggered": False}
     log: list = []
     records: list = []
@@ -490,6 +503,7 @@ def udp_scenario(exc: str, position: str) -> dict:
         backend = AsyncIOBackend()
         faulty_ports: set = set()
         handler = DgramHandler(faulty_ports, exc, position, log)
+        handler.linger = 3 if burst else 0
         server = AsyncUDPNetworkServer(netutil.rand_loopback(), 0, DatagramProtocol(StringLineSerializer()), handler, backend, logger=quiet_logger(records))
         up = _Up()
         st = asyncio.ensure_future(server.serve_forever(is_up_event=up))
@@ -541,6 +555,10 @@ def udp_scenario(exc: str, position: str) -> dict:
                     await lp.sock_sendall(s, b"\xff\xfe bad")
                 elif position == "handle_in_timeout":
                     await lp.sock_sendall(s, b"f:1")
+                    if burst:
+                        await asyncio.sleep(0.5)  # the burst arrives while the handler deals with its TimeoutError
+                for j in range(burst):
+                    await lp.sock_sendall(s, b"x:%d" % j)
                 await asyncio.sleep(2.0)
                 # drain whatever was answered before the failure
                 try:
@@ -609,6 +627,7 @@ def plan(tier: str, seed: int) -> list[dict]:
     for e in EXC_NAMES:
         for p in UDP_POSITIONS:
             items.append({"kind": "udp", "exc": e, "pos": p})
+            items.append({"kind": "udp", "exc": e, "pos": p, "burst": 6})
     rng = random.Random(seed)
     if tier == "thorough":
         # the same matrix under seeded variations of who joins when and how many clients of each kind there are
@@ -630,7 +649,9 @@ def run_shard(params: dict, ctx) -> None:
         kind = it["kind"]
         ctx.count(f"kind:{kind}")
         if kind == "udp":
-            res = udp_scenario(it["exc"], it["pos"])
+            res = udp_scenario(it["exc"], it["pos"], it.get("burst", 0))
+            if it.get("burst"):
+                ctx.count("udp_burst_behind_failing_datagram")
         else:
             res = tcp_scenario(kind == "tls", it.get("exc"), it.get("pos"), it.get("fault"), it.get("var"))
         ctx.case(res["triggered"], repr(it))
